@@ -5,7 +5,8 @@ from rules import common, trav
 
 LEVEL = "exploration"
 KINDS = {"set": "listing is not exactly the reachable in-universe set", "repeat": "a vertex is listed twice", "noreturn": "traversal raises",
-         "nonterm": "traversal does not terminate", "forward": "settings are not forwarded unchanged to neighbors()", "ff_result": "ff_result changes more than the listing"}
+         "nonterm": "traversal does not terminate", "forward": "settings are not forwarded unchanged to neighbors()", "ff_result": "ff_result changes more than the listing",
+         "forms": "generator and list forms (or the plain default call) disagree on the same input"}
 
 
 def run(ctx):
